@@ -1550,6 +1550,22 @@ def emit_ann_assign(node):""")]),
         if truth_file is None:""", """        args.functions = list(args.functions) if args.functions else args.functions
         truth_file = getattr(args, pluralise(args.truth))
         if truth_file is None:""")]),
+    # ---- FIRST-MATCH by a key (C16, C07)
+    dict(id="firstmatch-earliest-line-wins", kind=B, props=["C16", "C07"], expect="FIRST-MATCH", edits=[("parse.py",
+         """    function_def = next(
+        filter(
+            lambda func: func.name == merge_inner_function,
+            filter(rpartial(isinstance, FunctionDef), ast.walk(class_def)),
+        ),
+        None,
+    )""", """    function_def = min(
+        filter(
+            lambda func: func.name == merge_inner_function,
+            filter(rpartial(isinstance, FunctionDef), ast.walk(class_def)),
+        ),
+        key=lambda func: func.lineno,
+        default=None,
+    )""")]),
     # ---- PARAM-KEPT (C07, C03)
     dict(id="paramkept-return-type-popped-in-merge", kind=B, props=["C07", "C03"], expect="PARAM-KEPT", edits=[("parser_utils.py",
          """    if "return_type" not in (target.get("returns") or iter(())):""",
